@@ -126,6 +126,27 @@ def run(ctx):
                 pass
     for a in specs:
         ~a
+    # "injection" literals: a literal that looks like the tail of one rendered specifier and the head of another
+    # (`a" & in "a`): hostile for anything that keys on concatenated renderings
+    base = ["a", "ab"]
+    inj = [f'{x}" {sym} {op} "{y}' for sym in ("&", "|") for op in OPS for x in base for y in base]
+    ispecs = [G(op, lit) for op in OPS for lit in base + inj]
+    pairs = list(itertools.product(range(len(ispecs)), repeat=2))
+    if ctx.tier == "quick":
+        pairs = [p for k, p in enumerate(pairs) if (k + ctx.seed) % 3 == 0]
+    for order in (pairs, list(reversed(pairs))):
+        for i, j in order:
+            x, y = ispecs[i], ispecs[j]
+            ctx.cases += 1
+            ctx.current_case = {"kind": "pair", "a": [x.op, x.value], "b": [y.op, y.value]}
+            for fn in (lambda: x & y, lambda: x | y):
+                try:
+                    fn()
+                except NotImplementedError:
+                    pass
+                except Exception:  # noqa: BLE001
+                    pass
+    ctx.shape("injection-literals", len(inj))
     if len(ctx.samples) < 3:
         ctx.sample({"a": 'in "linux2"', "b": '== "linux"', "and": repr(G("in", "linux2") & G("==", "linux"))})
         ctx.sample({"a": '!= "a"', "b": 'not in "ab"', "or": repr(G("!=", "a") | G("not in", "ab"))})
